@@ -22,7 +22,7 @@ from oracles import cm
 from props import cmshapes as S
 
 ID = "C14"
-D5 = [(0, 1), (1, 1), (0, None), (1, None), (2, 2)]
+D5 = [(0, 1), (1, 1), (0, None), (1, None), (2, 2), (0, 0)]        # (0,0) = prohibited particle (indices of the first five are stable)
 CFG = {"base": None, "derived": None, "version": "1.0", "base_occ": None, "maxlen": 3}
 STATE = {}
 
@@ -209,6 +209,16 @@ def pairs():
         Sq(E('a', 1, 2), Sq(E('b', 0, 1), E('c', 0, None), mn=0, mx=1)), Sq(W('any', 0, None)), Sq(E('a', 0, 1), W('other', 0, None)),
         C(E('a', 0, 2), Sq(E('b'), E('c', 0, 1)), mn=1, mx=2), Sq(E('h', 0, None), E('a', 0, 1)), Sq(E('a', 0, 2), E('b', 0, 2)),
     ]
+    # nested base groups replaced by fewer / flattened particles in the derived type
+    nested = [
+        (Sq(Sq(E('a'), E('c'), mn=1, mx=2), E('b')), [Sq(E('a'), E('b')), Sq(E('c'), E('b')), Sq(Sq(E('a'), E('c')), E('b')), Sq(E('a'), E('c'), E('b'))]),
+        (Sq(Sq(E('a'), E('c'), mn=0, mx=None), E('b')), [Sq(E('a'), E('b')), Sq(E('b')), Sq(Sq(E('a'), E('c')), E('b'))]),
+        (Sq(C(E('a'), E('c'), mn=1, mx=2), E('b', 0, 1)), [Sq(E('a'), E('b')), Sq(C(E('a'), E('c')), E('b')), Sq(E('a'), E('c'))]),
+        (Sq(W('any', 1, 1), Sq(E('a'), E('b'), mn=1, mx=1)), [Sq(Sq(E('a'), E('b'))), Sq(E('c'), Sq(E('a'), E('b'))), Sq(E('c'), E('a'))]),
+    ]
+    for b, ds in nested:
+        for d in ds:
+            out.append((b, d, "nested"))
     for b in bases:
         nodes = S.nodes_preorder(b)
         plain = S.with_occurs(b, [(1, 1)] * len(nodes))
@@ -267,7 +277,7 @@ def obligations(tier, seed):
     ps = pairs()
     plan = []
     for version in ("1.0", "1.1"):
-        sel = ps if not quick else rnd.sample(ps, 14)
+        sel = ps
         plan += [(b, d, kind, version) for b, d, kind in sel]
     for b, d, kind, version in plan:
         n = len(S.nodes_preorder(d))
